@@ -1000,7 +1000,12 @@ class Sense(_Relatable):
             Word('pwn-spigot-n')
 
         """
-        return self._wordnet.word(id=self._entry_id)
+        lexids = self._home_lexicon_ids()
+        rows = find_entries(id=self._entry_id, lexicon_rowids=lexids)
+        row = next(rows, None) if lexids else None
+        if row is None:
+            raise wn.Error(f'no such lexical entry: {self._entry_id}')
+        return Word(*row, self._wordnet)
 
     def synset(self) -> Synset:
         """Return the synset of the sense.
@@ -1011,7 +1016,23 @@ class Sense(_Relatable):
             Synset('pwn-03325088-n')
 
         """
-        return self._wordnet.synset(id=self._synset_id)
+        lexids = self._home_lexicon_ids()
+        rows = find_synsets(id=self._synset_id, lexicon_rowids=lexids)
+        row = next(rows, None) if lexids else None
+        if row is None:
+            raise wn.Error(f'no such synset: {self._synset_id}')
+        return Synset(*row, _wordnet=self._wordnet)
+
+    def _home_lexicon_ids(self) -> tuple[int, ...]:
+        # The entry and synset of a sense are declared in the sense's
+        # own lexicon or, for lexicon extensions, in a lexicon it
+        # extends. Other lexicons may reuse the same identifiers
+        # (e.g., two versions of one lexicon), so don't look there.
+        lexids = (self._lexid, *get_lexicon_extension_bases(self._lexid))
+        if not self._wordnet._default_mode:
+            selected = self._wordnet._lexicon_ids
+            lexids = tuple(_id for _id in lexids if _id in selected)
+        return lexids
 
     def examples(self) -> list[str]:
         """Return the list of examples for the sense."""
